@@ -65,14 +65,14 @@ func (o Op) String() string {
 // Case is the universal description of one monitored execution.  A monitor's Exec is a
 // pure function of the Case (and of /repo's code), so a Case is also a replay.
 type Case struct {
-	Check   string   `json:"check"`             // which sub-check of the monitor
-	Input   S        `json:"input"`             // main input string
-	Base    S        `json:"base,omitempty"`    // base URL string (HasBase)
+	Check   string   `json:"check"`          // which sub-check of the monitor
+	Input   S        `json:"input"`          // main input string
+	Base    S        `json:"base,omitempty"` // base URL string (HasBase)
 	HasBase bool     `json:"has_base,omitempty"`
-	Alt     S        `json:"alt,omitempty"`     // second spelling / second string
-	Config  []string `json:"config,omitempty"`  // option names / profile name
-	Ops     []Op     `json:"ops,omitempty"`     // operation history
-	N       int      `json:"n,omitempty"`       // numeric parameter (sizes, indices)
+	Alt     S        `json:"alt,omitempty"`    // second spelling / second string
+	Config  []string `json:"config,omitempty"` // option names / profile name
+	Ops     []Op     `json:"ops,omitempty"`    // operation history
+	N       int      `json:"n,omitempty"`      // numeric parameter (sizes, indices)
 }
 
 // Hash is a 64-bit identity of the case (distinct counting).
